@@ -326,6 +326,13 @@ Definition maxmin_fit (t : list triple) : list Q :=
   let g := pool t in
   flat_map (fun i => match maxmin_at g i with Some v => [v] | None => [] end) (seq 0 (length g)).
 
+(* the same oracle on the tidied sequence itself (no pooling): for position i,
+   max over j <= i of min over k >= i of the weighted mean of items j..k  (coq/proofs/C15_maxmin.v) *)
+Definition seg (l : list item) (j k : nat) : list item := firstn (k - j + 1) (skipn j l).
+Definition maxmin_item (l : list item) (i : nat) : Q :=
+  lmax (map (fun j => lmin (map (fun k => wmean (seg l j k)) (seq i (length l - i)))) (seq 0 (i + 1))).
+Definition maxmin_items (l : list item) : list Q := map (maxmin_item l) (seq 0 (length l)).
+
 (* ------------------------------------------------------------------------------------ *)
 (* entries                                                                                *)
 (* ------------------------------------------------------------------------------------ *)
@@ -389,12 +396,13 @@ Definition entries_C15 : list entry := [
        let items := match w with Some w => combine y w | None => map (fun v => (v, 1)) y end in
        Some (e_qs (pav (solve sv) items))
      | _ => None end));
-  (* ( (fcst) (obs) (w)|none ) -> ( (unique fcst) (max-min of block averages) ) *)
+  (* ( (fcst) (obs) (w)|none ) -> ( (unique fcst) (max-min of pooled block averages) (max-min on the tidied sequence) ) *)
   ("c15_maxmin", fun r => orun (
      match r with RL [f; o; w] =>
        let? f := d_xvs f in let? o := d_xvs o in let? w := d_opt d_xvs w in
        let t := tidy f o w in
-       Some (RL [e_qs (map (fun p => fst (fst p)) (pool t)); e_qs (maxmin_fit t)])
+       Some (RL [e_qs (map (fun p => fst (fst p)) (pool t)); e_qs (maxmin_fit t);
+                 e_qs (map snd (uniq (map tf t) (maxmin_items (map titem t))))])
      | _ => None end));
   (* ( ((row) ...) quant ) -> _nanquantile ;  ( ((row) ...) conf min_non_nan ) -> _confidence_band *)
   ("c15_nanquantile", fun r => orun (
